@@ -29,6 +29,15 @@ def budget(tier):
     return 10000 if tier == "quick" else 50000
 
 
+VARIANT_DISTINCT_SEEDS = True
+
+
+def variants(tier):
+    # the module's logging switch (read at import time) must not change what is read
+    return [{"name": "default", "env": {}, "shards": 12},
+            {"name": "debug-logging", "env": {"DISSECT_LOG_VMDK": "DEBUG"}, "args": {"budget_scale": 0.2}, "shards": 4}]
+
+
 @st.composite
 def extent_spec(draw, tier="quick", kind=None, layer=0, capacity=None, allow_compressed=True, child=False):
     """`capacity` fixes the sector count (multi-extent / chains).  `child`: unallocated grains fall through to a parent."""
@@ -144,6 +153,18 @@ def strategy_(draw, tier):
     size = spec["capacity"] * 512
     spec["requests"] = draw(strat.requests(size, unit_bytes(spec), count=6, points=request_points(spec), whole_limit=4 << 20))
     spec["via_minimal"] = draw(strat.minimal_handle())
+    spec["via_gzip"] = draw(st.integers(0, 3 if spec["kind"] == "flat" else 11)) == 0
+    if spec.get("descriptor") and draw(st.integers(0, 1)) == 0:
+        # the embedded descriptor fills its area to the last byte (no NUL behind it); the header attributes may come in any order
+        # and the last line need not end in a newline
+        text = spec["descriptor"]
+        last = draw(st.sampled_from(["parentCID=ffffffff", "parentCID=ffffffff", "CID=fffffffe", 'createType="monolithicSparse"']))
+        body = text.replace(last + "\n", "", 1)
+        tail = last + draw(st.sampled_from(["", "", "\n"]))
+        k = -(-(len(body) + len(tail) + 2) // 512)
+        text = body + "#" + "x" * (k * 512 - len(body) - len(tail) - 2) + "\n" + tail
+        if last + "\n" in spec["descriptor"] and len(text) == k * 512:
+            spec["descriptor"], spec["desc_sectors"], spec["desc_fit"] = text, k, True
     spec["sector_requests"] = [[o // 512, max(1, min(n, 1 << 20) // 512)] for o, n in spec["requests"][:2]]
     return spec
 
@@ -199,7 +220,7 @@ def check(spec) -> Outcome:
     if meta.get("gd_entries", 0) > 128:
         out.cls("gd>128")
     if spec.get("descriptor"):
-        out.cls("embedded-descriptor")
+        out.cls("embedded-descriptor" + ("-exact-fit" if spec.get("desc_fit") else ""))
     v, err = lib(VMDK, fh)
     if err:
         out.fail(err.sig(tag + "-open"), f"VMDK() raised {err.describe()}")
@@ -210,6 +231,9 @@ def check(spec) -> Outcome:
     from hv.core import also_minimal
 
     also_minimal(out, spec, fh, VMDK, lay, spec["requests"], tag)
+    from hv.core import also_gzip
+
+    also_gzip(out, spec, fh, VMDK, lay, spec["requests"], tag)
     for s, c in spec.get("sector_requests", []):
         c = min(c, spec["capacity"] - s)
         if c <= 0:
